@@ -1260,7 +1260,10 @@ func contract_generateStmts(varPool *VarPool, pkg string, injector *Injector, im
 			namesVarOf(vs.As[*ast.ReturnStmt](result[len(result)-1]).Results[0], injector.Return.Param) &&
 			vs.Implies(injector.IsReturnError, isIdentNamed(vs.As[*ast.ReturnStmt](result[len(result)-1]).Results[1], "nil"))))
 	vs.Ensures("pool_inv", poolInv(varPool))
-	vs.ModifiesAll()
+	vs.Ensures("names_stable", namesAreStable())
+	vs.Modifies(vs.FieldOfAll(injector.Args[0].Param.name), vs.FieldOfAll(injector.Args[0].Param.channelName),
+		vs.FieldOfAll(imports[""].IsUsed), varPool.vars, imports,
+		gWaitChans, gCloseChans, gStepArgs, gStepLhs, gStepRhs, gMainCont)
 	vs.Allocates()
 	return
 }
@@ -1621,4 +1624,76 @@ func contract_Graph_injectContextArg(g *Graph, injector *Injector, metaData *Met
 //kvc:loop (*Graph).injectContextArg "for i, arg := range injector.Args"
 func inv_injectContextArg(injector *Injector, existingContextArg *InjectorArgument, existingContextIdx int, kvcIdx int) {
 	vs.Invariant("no_ctx_so_far", existingContextArg == nil && existingContextIdx == -1 && noCtxBefore(injector.Args, kvcIdx))
+}
+
+// ---------------------------------------------------------------------------
+// C10: the emitted signature
+// ---------------------------------------------------------------------------
+
+func argsHaveTypes(injector *Injector) bool {
+	return vs.Forall(len(injector.Args), func(i int) bool {
+		return injector.Args[i].ASTTypeExpr != nil && injector.Args[i].Param.refCounter > 0 && importsNonNil(injector.Args[i].Param.ReferencedImports)
+	})
+}
+
+// isParamField: the field `<name of p> <typ>` of a parameter list.
+func isParamField(fld *ast.Field, p *InjectorParam, typ ast.Expr) bool {
+	return fld != nil && len(fld.Names) == 1 && fld.Names[0] != nil && p.name != "" && fld.Names[0].Name == p.name && fld.Type == typ
+}
+
+func paramsMatchArgs(fields []*ast.Field, injector *Injector, n int) bool {
+	return vs.Forall(n, func(i int) bool { return isParamField(fields[i], injector.Args[i].Param, injector.Args[i].ASTTypeExpr) })
+}
+
+func funcDeclOf(d ast.Decl) *ast.FuncDecl { return vs.As[*ast.FuncDecl](d) }
+
+//kvc:contract generateInjectorDecl
+func contract_generateInjectorDecl(metaData *MetaData, injector *Injector, varPool *VarPool) (result ast.Decl, err error) {
+	vs.Requires(metaData != nil && injectorVarsReady(injector) && injectorArgsReady(injector) && argsHaveTypes(injector) && returnParamReady(injector) && poolInv(varPool) &&
+		metaData.Imports != nil && importsNonNil(metaData.Imports) &&
+		vs.Forall(len(injector.Vars), func(i int) bool { return !vs.SameMap(injector.Vars[i].ReferencedImports, metaData.Imports) }) &&
+		vs.Forall(len(injector.Stmts), func(i int) bool { return topStmtReady(injector.Stmts[i]) }) && fallibleOnlyIfErrorResult(injector) &&
+		(injector.Return == nil || injector.Return.Param == nil || importsNonNil(injector.Return.Param.ReferencedImports)))
+	// the function has the declared name
+	vs.Ensures("declared_name", vs.Implies(err == nil, vs.TypeIs[*ast.FuncDecl](result) && funcDeclOf(result) != nil && funcDeclOf(result).Name != nil &&
+		funcDeclOf(result).Name.Name == injector.Name && funcDeclOf(result).Type != nil))
+	// one parameter per injector argument, in order, named like the argument's variable and typed as discovered
+	vs.Ensures("one_parameter_per_argument_in_order", vs.Implies(err == nil && len(injector.Args) > 0,
+		funcDeclOf(result).Type.Params != nil && len(funcDeclOf(result).Type.Params.List) == len(injector.Args) &&
+			paramsMatchArgs(funcDeclOf(result).Type.Params.List, injector, len(injector.Args))))
+	vs.Ensures("no_parameters_without_arguments", vs.Implies(err == nil && len(injector.Args) == 0, funcDeclOf(result).Type.Params == nil))
+	// results: the requested type, then `error` exactly when the injector can fail
+	vs.Ensures("results_are_type_then_error", vs.Implies(err == nil && injector.Return != nil && injector.Return.Return != nil && injector.Return.Return.ASTTypeExpr != nil,
+		funcDeclOf(result).Type.Results != nil && len(funcDeclOf(result).Type.Results.List) == 1+b2i(injector.IsReturnError) &&
+			funcDeclOf(result).Type.Results.List[0] != nil && funcDeclOf(result).Type.Results.List[0].Type == injector.Return.Return.ASTTypeExpr &&
+			vs.Implies(injector.IsReturnError, funcDeclOf(result).Type.Results.List[1] != nil && isIdentNamed(funcDeclOf(result).Type.Results.List[1].Type, "error"))))
+	vs.Ensures("pool_inv", poolInv(varPool))
+	vs.ModifiesAll()
+	vs.Allocates()
+	return
+}
+
+//kvc:loop generateInjectorDecl "for _, arg := range injector.Args"
+func inv_generateInjectorDecl_args(injector *Injector, varPool *VarPool, paramFields []*ast.Field, kvcIdx int) {
+	vs.Invariant("pool_inv", poolInv(varPool))
+	vs.Invariant("names_stable", namesAreStable())
+	vs.Invariant("one_field_per_argument_so_far", len(paramFields) == kvcIdx && paramsMatchArgs(paramFields, injector, kvcIdx))
+}
+
+//kvc:loop generateInjectorDecl "for _, imp := range arg.Param.ReferencedImports"
+func inv_generateInjectorDecl_argimports() {
+}
+
+//kvc:loop generateInjectorDecl "for _, imp := range injector.Return.Param.ReferencedImports"
+func inv_generateInjectorDecl_retimports() {
+}
+
+//kvc:loop generateInjectorDecl "for _, field := range paramFields"
+func inv_generateInjectorDecl_validparams(paramFields []*ast.Field, validParams []*ast.Field, kvcIdx int) {
+	vs.Invariant("all_kept", len(validParams) == kvcIdx && vs.Forall(kvcIdx, func(i int) bool { return validParams[i] == paramFields[i] }))
+}
+
+//kvc:loop generateInjectorDecl "for _, field := range resultsFields"
+func inv_generateInjectorDecl_validresults(resultsFields []*ast.Field, validResults []*ast.Field, kvcIdx int) {
+	vs.Invariant("all_kept", len(validResults) == kvcIdx && vs.Forall(kvcIdx, func(i int) bool { return validResults[i] == resultsFields[i] }))
 }
